@@ -17,4 +17,4 @@ Quantified over: {p['quantifier']['text']}
 
 Your task: make ONE small, realistic change to the non-test Go source (the kind of slip a developer could make in a refactor or "optimisation": an off-by-one in a guard, a wrong constant, a dropped or weakened check, a swapped branch or field, a mishandled boundary, a lock released too early, a reordered step, an error swallowed) that BREAKS this property, while (a) the whole project still compiles (`go build ./...`), and (b) the existing tests still pass unedited (`go test -vet=off -count=1 {' '.join(pkgs)}` — and ideally the whole suite `go test -vet=off -count=1 ./...`, about a minute). Ask for nothing that ordinary use would expose at once: the change must need something specific to manifest (a particular interleaving, a fault at a particular point, a multi-step sequence of operations, an unusual input or boundary value, or two cooperating sites that each look fine alone). {hint}
 
-Deliver, inside the worktree: (1) the source change itself (leave it uncommitted in the working tree); (2) a demonstration: a Go test file named `zz_seed_demo_test.go` in the most relevant package (test function TestSeedDemo; it may need several steps/goroutines) that FAILS with your change and PASSES on the original code — verify both (run it with your change; then `git stash` the source change keeping the untracked demo file, run again, `git stash pop`); (3) a file `SEED_META.json` at the worktree root: {{"property":"{pid}","summary":"…","needs":"what specific input/condition/interleaving is needed to manifest","files":[…],"commands_run":[…],"existing_tests_pass":true}}. Finally run, at the worktree root, `git diff > patch.diff` (tracked source changes only; the demo test is untracked so it is not included). Report in at most 10 lines: what you changed, why it breaks the property, and the evidence (demo fails with / passes without the change; existing tests pass).""")
+Deliver, inside the worktree: (1) the source change itself (leave it uncommitted in the working tree); (2) a demonstration: a Go test file named `zz_seed_demo_test.go` in the most relevant package (test function TestSeedDemo; it may need several steps/goroutines) that FAILS with your change and PASSES on the original code — verify both (run it with your change; then write `git diff > patch.diff`, undo the source change with `git apply -R patch.diff` keeping the untracked demo file, run again, and restore it with `git apply patch.diff`; do NOT use `git stash` — the stash is shared with other worktrees of this repository); (3) a file `SEED_META.json` at the worktree root: {{"property":"{pid}","summary":"…","needs":"what specific input/condition/interleaving is needed to manifest","files":[…],"commands_run":[…],"existing_tests_pass":true}}. Finally run, at the worktree root, `git diff > patch.diff` (tracked source changes only; the demo test is untracked so it is not included). Report in at most 10 lines: what you changed, why it breaks the property, and the evidence (demo fails with / passes without the change; existing tests pass).""")
